@@ -414,6 +414,100 @@ func runServiceRules(c *Ctx) {
 		}
 	}
 	c.Check(okBoth && nNew > 0, "SVC", fname, "a service first seen in calendar_dates starts and ends on that date", p.pos(fn.Pos()), fmt.Sprintf("on each of the %d paths that find no existing service and store one, both StartDate and EndDate are set", nNew), "for a service without a calendar row some path sets only one of StartDate/EndDate: the other stays the zero time and the range does not cover the exception date")
+	// every row that is kept is inside the range afterwards: on each path that writes the service back, the service
+	// is new (both ends set, above) or the row's date was compared with both ends (and the end moved where needed, also
+	// above). A path that keeps the row without having looked at the range -- "removals do not widen a published range"
+	// -- leaves a removed or added date outside [StartDate, EndDate]
+	{
+		kindOf := func(cond ssa.Value, call0 *ssa.Call) string {
+			for {
+				u, isNot := cond.(*ssa.UnOp)
+				if !isNot || u.Op != token.NOT {
+					break
+				}
+				cond = u.X
+			}
+			call, isCall := cond.(*ssa.Call)
+			if !isCall || calleeName(call) != "(time.Time).Before" {
+				return ""
+			}
+			own, other := canon(call.Call.Args[0]), canon(call.Call.Args[1])
+			if strings.HasSuffix(other, ".StartDate)") && isDateVal(argOf(call0, call.Call.Args[0]), fn) {
+				return "start"
+			}
+			if strings.HasSuffix(own, ".EndDate)") && isDateVal(argOf(call0, call.Call.Args[1]), fn) {
+				return "end"
+			}
+			return ""
+		}
+		okLooked, nKept := true, 0
+		for _, pf := range paths {
+			writesBack := false
+			for _, blk := range pf.blocks {
+				for _, in := range blk.Instrs {
+					if mu, ok := in.(*ssa.MapUpdate); ok && typeName(mu.Value.Type()) == "gtfs.Service" {
+						writesBack = true
+					}
+				}
+			}
+			if !writesBack {
+				continue
+			}
+			nKept++
+			isNew := false
+			kinds := map[string]bool{}
+			for _, f := range pf.facts {
+				if isNewFact(f.ce) {
+					isNew = true
+				}
+				if k := kindOf(f.ce.Cond, nil); k != "" {
+					kinds[k] = true
+				}
+			}
+			if isNew {
+				continue
+			}
+			for _, blk := range pf.blocks {
+				for _, sh := range helpers {
+					if sh.call.Block() != blk {
+						continue
+					}
+					var common map[string]bool
+					enumPaths(sh.h, func(path []*ssa.BasicBlock) {
+						here := map[string]bool{}
+						for i := range path {
+							cond, val, ok := edgeTaken(path, i, nil)
+							if !ok {
+								continue
+							}
+							if isNewFact(condEdge{Cond: argOf(sh.call, cond), Val: val}) {
+								return // the path of a new service
+							}
+							if k := kindOf(cond, sh.call); k != "" {
+								here[k] = true
+							}
+						}
+						if common == nil {
+							common = here
+							return
+						}
+						for k := range common {
+							if !here[k] {
+								delete(common, k)
+							}
+						}
+					})
+					for k := range common {
+						kinds[k] = true
+					}
+				}
+			}
+			if !kinds["start"] || !kinds["end"] {
+				okLooked = false
+			}
+		}
+		c.Check(okLooked && nKept > 0, "SVC", fname, "every kept row is compared with the range", p.pos(fn.Pos()), fmt.Sprintf("on each of the %d paths that write a service back it is new, or the row's date was compared with StartDate and with EndDate", nKept), "some path keeps a row of an existing service without comparing its date with the range: an added or removed date can then lie outside [StartDate, EndDate]")
+	}
 	// SV3: exception table
 	for _, want := range []struct{ field, digit string }{{"AddedDates", "1"}, {"RemovedDates", "2"}} {
 		n := 0
@@ -710,7 +804,7 @@ func runAlertRules(c *Ctx) {
 				informedRoutes = mu.Map
 				// key is the selector's route id, guarded by RouteId != nil
 				bb := newBinder(c)
-				okKey := strings.Contains(bb.bind(mu.Key), "proto:EntitySelector.RouteId")
+				okKey := strings.Contains(bb.bind(mu.Key), "proto:EntitySelector.RouteId") && !computedByCall(mu.Key, 0)
 				c.Check(okKey, "ALERT", fname, "explicitly informed routes are recorded by the selector's route id", p.ipos(mu), "informedRoutes[*entity.RouteId] = true", "the set of explicitly informed routes is filled from something other than the selector's route id")
 			}
 		}
@@ -827,8 +921,9 @@ func runAlertRules(c *Ctx) {
 			guarded := false
 			for _, ce := range dominatingConds(b) {
 				if lk, isLk := ce.Cond.(*ssa.Lookup); isLk && lk.X == informedRoutes && !ce.Val && informedRoutes != nil {
-					// evaluated after the selector loop, for the route being added
-					if !sel.Blocks[lk.Block()] && sel.Header.Dominates(lk.Block()) {
+					// evaluated after the selector loop, for the route being added, under its id as it is (ids are
+					// case-sensitive and not trimmed: a folded or trimmed key confuses two routes)
+					if !sel.Blocks[lk.Block()] && sel.Header.Dominates(lk.Block()) && !computedByCall(lk.Index, 0) {
 						guarded = true
 					}
 				}
@@ -1125,4 +1220,34 @@ func fallbackRoutesPrefiltered(fn *ssa.Function, sel *Loop, informedRoutes ssa.V
 		}
 	}
 	return nApp > 0
+}
+
+// computedByCall: the value is the result of a (non-builtin) function applied to something: a key that went through
+// a normalising helper (ToUpper, TrimSpace, a canonical form) is no longer the id as sent.
+func computedByCall(v ssa.Value, d int) bool {
+	if v == nil || d > 8 {
+		return false
+	}
+	switch x := v.(type) {
+	case *ssa.Call:
+		if _, isB := x.Call.Value.(*ssa.Builtin); isB {
+			return false
+		}
+		return true
+	case *ssa.UnOp:
+		return computedByCall(x.X, d+1)
+	case *ssa.Phi:
+		for _, e := range x.Edges {
+			if computedByCall(e, d+1) {
+				return true
+			}
+		}
+	case *ssa.Convert:
+		return computedByCall(x.X, d+1)
+	case *ssa.ChangeType:
+		return computedByCall(x.X, d+1)
+	case *ssa.BinOp:
+		return computedByCall(x.X, d+1) || computedByCall(x.Y, d+1)
+	}
+	return false
 }
